@@ -95,5 +95,8 @@ def main():
         "the end-to-end statement is decided on generated cases by the implementation's prover and verifier",
         "kernel theorems (transition algebra, telescoping, counting identity, completeness of compute_lookup_polys for any number of tables, "
         "the RE root bound) are proved on Model/Lookup.v, which is tied to check_lookup_constraints (lkc) and compute_lookup_polys (clp) by "
-        "correspondence; soundness of the running sum is REFUTED on the model (C08_lookup_sound_refuted) and on the implementation (sldc-shift cases)",
+        "correspondence; the soundness direction is proved up to the balance equation at one challenge and the root-bound step over alpha "
+        "(C08_lookup_sound_partial, C08_balance_forces_membership, C08_lookup_sound_membership_partial); its composition with the random "
+        "challenges a, b, delta and with Fiat-Shamir / FRI is not formalised",
+        "the sldc-shift strategy (running sum started from a non-zero value) is the regression test of the defect fixed in repo commit bfbd0f1",
         "tables are functions (distinct inputs); a table listing one input with two different outputs is outside the property"])
